@@ -66,7 +66,7 @@ def run(R):
     ms = [2, 3] if quick else [2, 3, 4]
     R.bounds = {'jobs per packing': ms, 'configurations': {f'{c}/{"job-private" if jp else "pool"}': len(v) for (c, jp), v in H.CONFIGS.items()},
                 'request mcpu': '0..2^20-1 (roundtrip), any >= 0 (pack)', 'memory MiB': '0..2^30-1 (roundtrip), any >= 0 (pack)',
-                'extra storage GiB': '0..64Ti (gcp) / 0..32Ti (azure)'}
+                'extra storage GiB': '0..64Ti (gcp) / ' + ('0..128 (azure, quick)' if quick else '0..32Ti (azure)')}
     R.assume('ProductVersions is the real class over a table where every product has version "1" (versions only appear in names)',
              'boot disk 10 GiB; data disk = the local-ssd size of the worker type or a per-configuration external size; two locations per cloud',
              'pool workers (job_private=False) are taken with power-of-two core counts only: quantified_resources asserts that '
@@ -84,7 +84,8 @@ def run(R):
     for rel, q in H.ENCODED:
         c = floatcut.cut(rel, q, mods[rel], rules=())
         R.encode(c.ref, c.text)
-    src, names = T.source(H, ms)
+    emax = {'gcp': 64 * 1024, 'azure': 128} if quick else None
+    src, names = T.source(H, ms, emax)
     gm = chrun.gen_module('C13_conditions', src)
     targets = [f'{gm}.{fn}' for _, fn, _ in names] + [f'{gm}.reach_{fn}' for _, fn, _ in names]
     res = chrun.run(targets, per_condition_timeout=170 if quick else 900, workers=8)
